@@ -232,7 +232,7 @@ func runC08(c *Ctx) {
 			for i, av := range cs.Common().Args {
 				args[i] = fl.At(av, cs.Block())
 			}
-			sub := fl.WithParams(callee, args)
+			sub := fl.WithParamsAt(callee, args, cs)
 			for _, x := range raws {
 				direct++
 				r.Sites++
